@@ -17,7 +17,7 @@ ID = 'C01'
 RULE = ('matrix: one query per (operator|function, operand types, target|WHERE) over the cross product of value '
         'pools (exhaustive over the pools); random: table (1..6 typed columns incl. object, 0..8 rows, NULL-rich) '
         '+ non-aggregate SELECT with 1..4 typed expression targets of depth <= 4, optional WHERE / FROM-expression, '
-        'random layout. Non-trivial = statement has an operator or function node, table has >= 2 rows, the reference '
+        'a quarter printed in a random layout and executed from text, the rest executed from the AST. Non-trivial = statement has an operator or function node, table has >= 2 rows, the reference '
         'evaluation met a NULL operand, and with a condition at least one row kept and one dropped. Distinct by '
         'hash of (text, tables).')
 ASSUMPTIONS = ['leaf arithmetic of CPython int/Decimal/date is trusted (both sides use it)',
@@ -153,8 +153,13 @@ def random_case(draw):
     else:
         frm, default = ('expr', draw(gen.exprs('bool', cols, 2)), None, None, None), table['name']
     sel = bql.select(tg, frm, where)
-    style = draw(gen.styles(parens=0.15, space=True, case=False))
-    case = {'tables': [table], 'sel': sel, 'text': bql.statement(sel, style)}
+    if draw(st.integers(0, 3)) > 0:
+        # executed from the AST (Connection.execute accepts parsed statements): 50x faster than parsing the text
+        sel = harness.force_aliases(sel)
+        case = {'tables': [table], 'sel': sel, 'text': bql.statement(sel), 'via_ast': True}
+    else:
+        style = draw(gen.styles(parens=0.15, space=True, case=False))
+        case = {'tables': [table], 'sel': sel, 'text': bql.statement(sel, style)}
     if default:
         case['default'] = default
     return case
@@ -202,4 +207,4 @@ def run(sh):
         for sig, detail in prop_select(sh, case):
             sh.fail(sig, detail, case, 'matrix')
     sh.extra['exhaustive_over_pools'] = True
-    sh.search('random', random_case(), prop_select, quick=2400, thorough=60000)
+    sh.search('random', random_case(), prop_select, quick=8000, thorough=240000)
